@@ -96,6 +96,11 @@ type Path struct {
 	assertTO  int
 	initLock  bool
 	tags      []string
+	proved    map[int]int8
+	divs      []divRec
+	divCache  map[string]*Term
+	subst     map[*Term]*Term
+	substMemo map[int]*Term
 }
 
 type Worker struct {
@@ -195,6 +200,106 @@ func (p *Path) assume(c *Term) {
 	}
 	p.pc = append(p.pc, c)
 	p.w.inc.Assert(c)
+	p.learnEq(c)
+}
+
+// learnEq records x ↦ e when the path assumes an integer equality that can be solved for a symbol x with
+// coefficient ±1. The substitution is only used to simplify later conditions syntactically (sound: it is implied by pc).
+func (p *Path) learnEq(c *Term) {
+	if c.op == "and" {
+		for _, a := range c.args {
+			p.learnEq(a)
+		}
+		return
+	}
+	if c.op != "=" || c.args[0].sort != SInt {
+		return
+	}
+	d := toLin(p.substitute(Sub(c.args[0], c.args[1])))
+	for i, at := range d.atoms {
+		if at.op != "sym" || strings.Contains(at.name, "!") {
+			continue
+		}
+		co := d.coefs[i]
+		if co.CmpAbs(bigOne) != 0 {
+			continue
+		}
+		rest := linform{k: d.k}
+		for j := range d.atoms {
+			if j != i {
+				rest.atoms = append(rest.atoms, d.atoms[j])
+				rest.coefs = append(rest.coefs, d.coefs[j])
+			}
+		}
+		e := fromLin(rest)
+		if co.Sign() > 0 {
+			e = Neg(e)
+		}
+		if occurs(at, e) {
+			continue
+		}
+		if p.subst == nil {
+			p.subst = map[*Term]*Term{}
+		}
+		p.subst[at] = e
+		p.substMemo = nil
+		return
+	}
+}
+
+func occurs(x, t *Term) bool {
+	if x == t {
+		return true
+	}
+	for _, a := range t.args {
+		if occurs(x, a) {
+			return true
+		}
+	}
+	return false
+}
+
+func (p *Path) substitute(t *Term) *Term {
+	if len(p.subst) == 0 {
+		return t
+	}
+	if p.substMemo == nil {
+		p.substMemo = map[int]*Term{}
+	}
+	return p.substRec(t, 0)
+}
+
+func (p *Path) substRec(t *Term, depth int) *Term {
+	if r, ok := p.substMemo[t.id]; ok {
+		return r
+	}
+	var r *Term
+	switch t.op {
+	case "const":
+		r = t
+	case "sym":
+		if e, ok := p.subst[t]; ok && depth < 50 {
+			r = p.substRec(e, depth+1)
+		} else {
+			r = t
+		}
+	default:
+		changed := false
+		args := make([]*Term, len(t.args))
+		for i, a := range t.args {
+			args[i] = p.substRec(a, depth)
+			if args[i] != a {
+				changed = true
+			}
+		}
+		if changed {
+			r = rebuild(t, args)
+		} else {
+			r = t
+		}
+	}
+	p.substMemo[t.id] = r
+	return r
 }
 
 // feasible asks the incremental solver whether pc ∧ c is satisfiable. unknown counts as feasible.
@@ -282,6 +387,9 @@ func (p *Path) decide(conds []*Term) int {
 func (p *Path) branch(c *Term) bool {
 	if c.IsConst() {
 		return c.b
+	}
+	if sc := p.substitute(c); sc.IsConst() {
+		return sc.b
 	}
 	return p.decide([]*Term{c, Not(c)}) == 0
 }
@@ -434,6 +542,9 @@ func (p *Path) record(o Obligation) {
 }
 
 func (p *Path) assertTerm(c *Term, label string) {
+	if c != TTrue && p.substitute(c) == TTrue {
+		c = TTrue
+	}
 	if c == TTrue {
 		p.record(Obligation{Label: label, Kind: "assert", Verdict: "trivial"})
 		return
@@ -575,7 +686,7 @@ func (e *Engine) runPath(w *Worker, fn *ssa.Function, prefix []int) {
 	}
 	p := &Path{eng: e, w: w, harness: fn.Name(), prefix: append([]int(nil), prefix...),
 		globals: map[*ssa.Global]*Value{}, pkgInit: map[*ssa.Package]bool{}, ufApps: map[string][]*Term{},
-		pools: map[string][]string{}, unroll: e.cfg.Unroll, knobs: map[string]int64{}, world: map[string]Value{}}
+		pools: map[string][]string{}, unroll: e.cfg.Unroll, knobs: map[string]int64{}, world: map[string]Value{}, findings: map[string]bool{}}
 	w.inc.PopAll()
 	w.inc.Push()
 	defer func() {
@@ -660,7 +771,7 @@ func (e *Engine) pristineFor(p *Path, pkg *ssa.Package) map[*ssa.Global]*Value {
 	}
 	pkg.Build()
 	ip := &Path{eng: e, w: p.w, harness: "init:" + pkg.Pkg.Path(), globals: map[*ssa.Global]*Value{}, pkgInit: map[*ssa.Package]bool{pkg: true},
-		ufApps: map[string][]*Term{}, pools: map[string][]string{}, unroll: 1 << 30, lenient: 1, knobs: map[string]int64{}, world: map[string]Value{}, initLock: true}
+		ufApps: map[string][]*Term{}, pools: map[string][]string{}, unroll: 1 << 30, lenient: 1, knobs: map[string]int64{}, world: map[string]Value{}, initLock: true, findings: map[string]bool{}}
 	// pre-create zero cells for every global of the package
 	for _, m := range pkg.Members {
 		if g, ok := m.(*ssa.Global); ok {
